@@ -43,6 +43,9 @@ REQUIRED_COUNTERS = {"builder_checks": 400, "solved_graphs": 100, "solved_dispat
 WORKERS = {"quick": 1, "thorough": 14}
 
 
+_PREVIOUS = []
+
+
 def gen_cases(ctx):
     rng = ctx.rng
     for i in range(ctx.scale(5000, 720000)):
@@ -244,12 +247,19 @@ def run_case(ctx, case):
     r = Ref(inst)
     if case["kind"] == "builders":
         instance = gen.build(inst)
+        built = []
         for name, b in builders().items():
             g = b(instance)
             wn, we = spec(r, name)
             check_graph(ctx, r, instance, name, g, wn, we, "built")
+            built.append((r, instance, name, g, wn, we))
             ctx.count("builder_checks")
             ctx.distinct.add(f"{name}:{hash(gen.fingerprint(inst))}") if gen.competing(inst) else None
+        # graphs of the previous instance must not have been touched by building these
+        for (r0, i0, n0, g0, wn0, we0) in _PREVIOUS:
+            check_graph(ctx, r0, i0, n0, g0, wn0, we0, "re-checked after other graphs were built")
+            ctx.count("graphs_rechecked_later")
+        _PREVIOUS[:] = built
         ctx.evaluations += 1
         if len(ctx.samples) < 2:
             ctx.samples.append({"instance": inst, "builders": list(builders())})
